@@ -467,6 +467,11 @@ def triples(seed, count, maxcells=3, minors=(5, 4, 2), max_edits=2, ops=None):
             if t is not None:
                 yield t
                 continue
+        if ops is None and u < 0.68:
+            t = minor_mix_triple(b, rnd)
+            if t is not None:
+                yield t
+                continue
         common = b
         if rnd.random() < 0.3:
             # changes made identically on both sides (agreement), e.g. the same cell inserted by both
@@ -581,6 +586,33 @@ def separate_edits_triple(b, rnd):
         upper, lower = lower, upper
     l['cells'][i]['source'], r['cells'][i]['source'] = upper, lower
     return base, l, r
+
+
+def minor_mix_triple(b, rnd):
+    """Base, local and remote declare three different format minors (a notebook re-saved by two newer tools), either side may hold
+    the highest one; each side also edits a cell of its own."""
+    m0 = b['nbformat_minor']
+    higher = [m for m in (3, 4, 5) if m > m0]
+    if len(higher) < 2 or not b['cells']:
+        return None
+    hi, lo = sorted(rnd.sample(higher, 2), reverse=True)
+
+    def resave(nb, minor, tag):
+        nb = copy.deepcopy(nb)
+        nb['nbformat_minor'] = minor
+        if minor >= 5:
+            for k, c in enumerate(nb['cells']):
+                c.setdefault('id', '%s-cell-%d' % (tag, k))
+        return nb
+    l, r = resave(b, hi, 'hi'), resave(b, lo, 'lo')
+    n = len(b['cells'])
+    l = apply_edit(l, rnd.choice(['source_line_add', 'source_line_change', 'metadata_tags']), rnd, where=0)
+    r = apply_edit(r, rnd.choice(['source_line_add', 'source_line_change', 'metadata_tags']), rnd, where=n - 1)
+    if validate_strict(l) or validate_strict(r):
+        return None
+    if rnd.random() < 0.5:
+        l, r = r, l
+    return copy.deepcopy(b), l, r
 
 
 def double_append_outputs_triple(b, rnd):
